@@ -8,6 +8,7 @@ from .prune import is_call
 LEVEL = 'proof'
 TECHNIQUE = 'static analysis: value numbering of MIR def-use DAGs to non-commutative polynomial normal forms, compared with the documented formula (nothing executed)'
 RULES = {
+    'C16.R5': 'dimension guards of compose / stack assert an equality the result needs (columns of the left factor = rows of the right one; equal input dimensions for stacked outputs)',
     'C16.R4': helpers.RULE_TEXT,
     'C16.R1': 'kernel identities: apply, apply_transpose, compose, stack, negate, row/row_iter (same row index), remove_zero_columns (bias untouched), '
               'as_polytope/as_function/new/view/to_owned (field-wise), convert_to per PolyRepr arm',
@@ -16,7 +17,7 @@ RULES = {
 }
 CONTROL_REV = '078b142'  # thorough tier: the rules must still report the defects found (and since fixed) on the original tree
 CONTROLS = [('C16.R2', 'AffFuncBase::translation'), ('C16.R2', 'AffFuncBase::subtraction#aliasing')]
-FLOORS = {'C16.R4': 5, 'C16.R1': 36, 'C16.R2': 12, 'C16.R3': 4}
+FLOORS = {'C16.R5': 2, 'C16.R4': 5, 'C16.R1': 36, 'C16.R2': 12, 'C16.R3': 4}
 EXPLANATION = ('Each kernel is single-path; its returned value is a polynomial in the operands, and polynomial identities over matrices of all sizes are decidable by '
                'normal-form comparison. Constructor forms (base matrix + point writes) are compared entry-wise with the documented meaning.')
 DOES_NOT_DECIDE = 'from_row_iter/remove_rows iterator plumbing (C15), % semantics beyond element-wise, floating-point rounding'
@@ -53,6 +54,7 @@ def obligation(ctx, rule, F, q, spec, impl_filter=None, site=None):
 
 def run(ctx):
     helpers.run_for(ctx)
+    prune.check_dimension_guards(ctx, 'C16.R5', ['AffFuncBase::stack', 'AffFuncBase::compose'])
     prune.check_wrappers(ctx, 'C16.R1', {'AffFuncBase::matrix_view': ('self.mat', [], 'a view of the matrix'), 'AffFuncBase::bias_view': ('self.bias', [], 'a view of the bias')})
     prune.check_layout_independence(ctx, 'C16.R1')
     F = ctx.facts
@@ -168,6 +170,38 @@ def rows(ctx, F):
             ok = bool(els) and all(is_call(e, 'Iterator::next') and is_call(e[2][0], 'ArrayBase::axis_iter') and e[2][0][2][0] == ('field', ('param', 'self'), 'mat')
                                    and e[2][0][2][1][2] == (('const', 1),) for e in els)
         (ctx.ok if ok else ctx.bad)('C16.R1', 'AffFuncBase::remove_zero_columns', 'keeps a subsequence of the columns, bias untouched' if ok else 'remove_zero_columns changes the bias or does not re-stack columns', b.span)
+        # which columns go: exactly those whose entries are all zero (a column with one non-zero coefficient still contributes to the function)
+        site = 'AffFuncBase::remove_zero_columns#predicate'
+        flt = [x for x in walk(ret) if is_call(x, 'Iterator::filter') and len(x[2]) == 2 and x[2][1][0] == 'closure'] if ok else []
+        verdict = None
+        if len(flt) == 1:
+            from ..absint import Interp, Unknown, ROW
+            cb = F.closure(flt[0][2][1][1])
+            try:
+                table = {az: Interp(F, cb, {cb.arg_count: ROW}, az, 0).run() for az in (True, False)} if cb is not None else None
+            except Unknown as e:
+                table = None
+                verdict = 'predicate outside the abstract domain {all entries zero, some entry non-zero}: %s' % e
+            if table is not None:
+                verdict = True if table == {True: False, False: True} else 'a column is kept / dropped on another test than "some entry is non-zero": all-zero -> %s, not all-zero -> %s' % (
+                    'kept' if table[True] else 'dropped', 'kept' if table[False] else 'dropped')
+        elif ok:
+            # loop form: the push of a column is guarded by any(nonzero) / !all(zero)
+            from ..absint import Interp
+            it = Interp(F, b, {}, False, 0)
+            for bb, t in b.calls():
+                c = Callee(t['func'])
+                if c.name == 'push' and c.self_base == 'Vec':
+                    for l in literals(b, R, bb):
+                        e = l[1]
+                        if is_call(e, 'Iterator::any', 'Iterator::all') and len(e[2]) == 2 and e[2][1][0] == 'closure':
+                            kind = it.element_predicate(F.closure(e[2][1][1]))
+                            if (is_call(e, 'Iterator::any') and kind == 'nonzero' and l[0] == 'true') or (is_call(e, 'Iterator::all') and kind == 'zero' and l[0] == 'false'):
+                                verdict = True
+        if verdict is True:
+            ctx.ok('C16.R1', site, 'a column is dropped exactly when all its entries are zero', b.span)
+        elif ok:
+            (ctx.bad if isinstance(verdict, str) and verdict.startswith('a column') else ctx.undecided)('C16.R1', site, verdict or 'column predicate not found', b.span)
 
 
 def shape_of(e):
